@@ -162,7 +162,7 @@ def other_unit(qq, same_number):
     new = u.kHz if qq.unit == u.Hz else (u.Hz if qq.unit in (u.kHz, u.MHz) else u.MHz)
     return u.Quantity(qq.value, new) if same_number else qq.to(new)
 
-FREQ_PERT = ["f_gap", "f_overlap", "f_order", "f_start", "f_rate", "f_twice"]
+FREQ_PERT = ["f_gap", "f_overlap", "f_order", "f_start", "f_rate", "f_twice", "f_align_equiv_ok", "f_align_equiv_ok"]
 OTHER_PERT = ["o_start", "o_labels", "o_rate"]
 
 
@@ -177,6 +177,8 @@ def pert_case(draw):
     spec = draw(G.signal_spec(classes=classes, nmin=4, nmax=40, nchan_max=9, max_trailing=mt, start="some", sr=G.freq_q(0, 9.6)))
     if kind in FREQ_PERT and spec["sshape"][0] < 4:
         spec["sshape"][0] = draw(st.integers(4, 9))
+    if kind == "f_align_equiv_ok":
+        spec["sshape"][0] = draw(st.sampled_from([4, 6, 8]))
     if kind in ("align_flip", "align_equiv_ok"):
         spec["sshape"][0] = draw(st.sampled_from([2, 4, 6, 8]))  # alignment only matters for an even channel count
         spec["align"] = draw(st.sampled_from(["bottom", "top"]))
@@ -292,6 +294,27 @@ def run_pert(case, stt):
         c = 1 + (a % (nchan - 2))  # 1..nchan-2
         ax_f = axis_arg(case["axis"], nd, 1)
         f0, f1 = z[:, :c], z[:, c:]
+        if kind == "f_align_equiv_ok":
+            # pieces of even width whose labels are written with 'bottom' / 'top' alignment (centre moved by half a channel): the same bands,
+            # so they join, and the joined labels are the original ones
+            c = 2 * (1 + a % (nchan // 2 - 1))
+            pieces = []
+            for piece, al in zip((z[:, :c], z[:, c:]), (("bottom", "top")[case["j"]], ("top", "bottom", "center")[k % 3])):
+                sgn = {"bottom": 1, "top": -1, "center": 0}[al]
+                q = type(piece).like(piece, freq_align=al, center_freq=piece.center_freq + sgn * piece.chan_bw / 2)
+                same = all(abs(x - y) <= abs(O.hz(piece.chan_bw)) * F(1, 10**9) for x, y in zip(O.hz_arr(q.channel_freqs), O.hz_arr(piece.channel_freqs)))
+                pieces.append(q if same else piece)
+                stt.label("piece_aligned_" + (al if same else "center"))
+            with lib("concatenate(freq) of pieces labelled with bottom/top alignment"):
+                y = pb.concatenate(pieces, axis=ax_f)
+            check(type(y) is type(z) and bits_equal(np.asarray(y.data), np.asarray(z.data)), "frequency join of re-labelled pieces: data differ")
+            bwz = abs(O.hz(z.chan_bw))
+            for i, (g, e) in enumerate(zip(O.hz_arr(y.channel_freqs), G.exact_labels(spec))):
+                check(abs(g - e) <= bwz * F(1, 10**6) + abs(e) * F(1, 2**46), "frequency join of pieces aligned {}: channel {} is labelled {} Hz, the "
+                      "pieces' labels say {} Hz", [q.freq_align for q in pieces], i, float(g), float(e))
+            stt.nt()
+            stt.label(kind)
+            return
         if kind == "f_gap":
             bad = [f0, z[:, c + 1 :]]
         elif kind == "f_overlap":
